@@ -20,19 +20,19 @@ BitOf(n, w, i) == IF w = 1 THEN SigT(n) ELSE [k |-> "slice", of |-> SigT(n), idx
 
 WithTop(U, name, m) == [U EXCEPT !.mods = [x \in DOMAIN U.mods \cup {name} |-> IF x = name THEN m ELSE U.mods[x]], !.top = name]
 
-SeriesDesign(U, of, ports, a, b, n) ==
+SeriesDesign(U, of, ports, a, b, n, names) ==      \* names: the n unit-instance names (the property does not fix them)
   LET unitconn(k, p) ==        \* k = 0..n-1
-        IF p.n = a THEN (IF k = 0 THEN SigT(a) ELSE BitOf("i", n - 1, k - 1))
-        ELSE IF p.n = b THEN (IF k = n - 1 THEN SigT(b) ELSE BitOf("i", n - 1, k))
+        IF p.n = a THEN (IF k = 0 THEN SigT(a) ELSE BitOf("$series", n - 1, k - 1))
+        ELSE IF p.n = b THEN (IF k = n - 1 THEN SigT(b) ELSE BitOf("$series", n - 1, k))
         ELSE SigT(p.n)
-      insts == [k \in 1..n |-> [n |-> "units_" \o ToString(k - 1), kind |-> "inst", arr |-> 0, of |-> of,
+      insts == [k \in 1..n |-> [n |-> names[k], kind |-> "inst", arr |-> 0, of |-> of,
                                 conns |-> [j \in 1..Len(ports) |-> [p |-> ports[j].n, t |-> unitconn(k - 1, ports[j])]]]]
       sigs == [j \in 1..Len(ports) |-> [n |-> ports[j].n, w |-> ports[j].w, port |-> TRUE, dir |-> "NONE"]]
-              \o (IF n > 1 THEN <<[n |-> "i", w |-> n - 1, port |-> FALSE, dir |-> "NONE"]>> ELSE <<>>)
+              \o (IF n > 1 THEN <<[n |-> "$series", w |-> n - 1, port |-> FALSE, dir |-> "NONE"]>> ELSE <<>>)
   IN WithTop(U, "SeriesTop", [name |-> "SeriesTop", sigs |-> sigs, bundles |-> <<>>, insts |-> insts])
 
-WrapperDesign(U, of, ports, bports) ==
-  LET insts == <<[n |-> "inner", kind |-> "inst", arr |-> 0, of |-> of,
+WrapperDesign(U, of, ports, bports, names) ==
+  LET insts == <<[n |-> names[1], kind |-> "inst", arr |-> 0, of |-> of,
                   conns |-> [j \in 1..Len(ports) |-> [p |-> ports[j].n, t |-> SigT(ports[j].n)]]
                             \o [j \in 1..Len(bports) |-> [p |-> bports[j].n, t |-> [k |-> "bund", n |-> bports[j].n]]]]>>
       sigs == [j \in 1..Len(ports) |-> [n |-> ports[j].n, w |-> ports[j].w, port |-> TRUE, dir |-> "NONE"]]
